@@ -629,7 +629,59 @@ def matrix_specs(ctx):
     return out
 
 
+def coq_str(x):
+    assert all(32 <= ord(c) < 127 for c in x), x
+    return '"%s"%%string' % x.replace('"', '""')
+
+
+def run_paths(ctx):
+    """get_patch_path_from_id / get_id_from_patch_path against Model/PatchPath.v over cache directory strings of any shape
+    (parents named like patch folders and library files, underscores, braces, dots, trailing parts) and ids 0 .. 32767,
+    plus arbitrary strings for the inverse (None = it raised)."""
+    from yaw.catalog.catalog import get_id_from_patch_path, get_patch_path_from_id
+    rng = ctx.rng
+    parts = ["data", "npatch_8", "patch_3", "patch_12", "x{a}", "y{{", "z{}", "n{0}", "a_b_c", "run.1", "cat", "patch_ids.bin", "_", "p_",
+             "trees.pkl", "patch_", "patch", "7", "patch_007", "a b", "patch_1_2", "-patch_5"]
+    terms, metas = [], []
+    for k in range(ctx.n(120, 1200)):
+        dirs = "/" + "/".join(rng.choice(parts) for _ in range(rng.randrange(1, 5))) if rng.random() < 0.8 else \
+            "/".join(rng.choice(parts) for _ in range(rng.randrange(1, 4)))
+        pid = rng.choice([0, 1, 2, 9, 10, 11, 99, 100, 101, 255, 256, 999, 1000, 32767, rng.randrange(0, 32768)])
+        got_path = str(get_patch_path_from_id(dirs, pid))
+        try:
+            got_id = int(get_id_from_patch_path(got_path))
+        except Exception:  # noqa: BLE001
+            got_id = None
+        anyp = dirs if rng.random() < 0.5 else dirs + "/" + rng.choice(parts)
+        try:
+            any_id = int(get_id_from_patch_path(anyp))
+        except Exception:  # noqa: BLE001
+            any_id = None
+        if any_id is not None and any_id < 0:
+            ctx.bump("paths:negative-id-read")      # int("-5"): outside the model (ids are naturals); not produced by the template
+            anyp, any_id = dirs, None
+            try:
+                any_id = int(get_id_from_patch_path(anyp))
+            except Exception:  # noqa: BLE001
+                any_id = None
+            if any_id is not None and any_id < 0:
+                continue
+        opt = lambda v: "None" if v is None else "(Some %d)" % v   # noqa: E731
+        terms.append("c02_path_case %s %d %s %s %s %s" % (coq_str(dirs), pid, coq_str(got_path), opt(got_id), coq_str(anyp), opt(any_id)))
+        metas.append(dict(dir=dirs, id=pid, path=got_path, read_back=got_id, any=anyp, any_id=any_id))
+        ctx.count(key=("path", dirs, pid, anyp), nontrivial=True, kind="paths/%s" % ("inverse-defined" if any_id is not None else "inverse-raises"))
+        if got_id != pid:
+            ctx.fail("c02-patch-folder-does-not-read-back-its-id", "get_id_from_patch_path(get_patch_path_from_id(%r, %d)) gave %r" % (dirs, pid, got_id),
+                     metas[-1], case=("path", k))
+    hdr = "From Verif Require Import PatchPath.\nFrom Coq Require Import String List.\nImport ListNotations.\nOpen Scope nat_scope.\n"
+    codes = ctx.shards("Paths_C02", hdr, terms, shard=300)
+    for m, c in zip(metas, codes):
+        if c:
+            ctx.disagree("Paths_C02", ("path", m["dir"], m["id"]), dict(code=c, meta=m))
+
+
 def run(ctx):
+    run_paths(ctx)
     terms, replays, d2r_all = [], [], []
     jobs = [("single", s) for s in specs(ctx)] + [("matrix", m) for m in matrix_specs(ctx)]
     for idx, (what, spec) in enumerate(jobs):
